@@ -387,6 +387,11 @@ def _run_impl(case):
   mapep = (lambda e: e + 100) if epname else (lambda e: e)
   stubq = _S['stubq']
   del stubq.actions[:]
+  # a case is a pure function of its JSON: nothing of the scripted `random` survives from the previous case
+  # (aperture expansion draws random.choice with the current jseed)
+  rnd.jseed = 0
+  rnd.shuffle_seed = 0
+  del rnd.calls[:]
   q = _S['Queue']()
   prog = {'enq': 0, 'done': 0, 'exc': None}
 
